@@ -70,7 +70,7 @@ impl Prop for C10 {
         ]
     }
     fn cases(tier: Tier) -> u32 {
-        tier.pick(3_000, 300_000)
+        tier.pick(5_000, 300_000)
     }
     fn strategy(tier: Tier) -> BoxedStrategy<Case> {
         let mut p = params(tier);
